@@ -111,7 +111,7 @@ def main():
                 print(f"FAIL {name} [{info}]")
                 for p, rc, viol, inc in res:
                     print(f"       {p}: exit={rc} violated={viol} inconclusive={inc}")
-    for kind in ("unparse", "rename", "retvar", "ifswap", "hoist", "marker", "annassign", "decomp"):
+    for kind in ("unparse", "rename", "retvar", "ifswap", "hoist", "marker", "annassign", "decomp", "kwargs"):
         if args and not any(a in "global_" + kind for a in args):
             continue
         name, status, info, res = global_variant(kind)
